@@ -23,6 +23,7 @@ var functionReturnTypes = map[string]string{
 	"datetime_from_parts": "datetime",
 	"datetime":            "datetime",
 	"date":                "date",
+	"date_from_parts":     "date",
 	"format_date":         "date",
 	"max":                 "number",
 	"mean":                "number",
